@@ -234,8 +234,8 @@ def _sample(case):
 def plan(tier: str) -> list[dict]:
     if tier == "quick":
         return [{"max_n": 6, "examples": 250, "steps": 30, "cost": 3} for _ in range(4)] + [{"max_n": 7, "examples": 60, "steps": 20, "cost": 4}]
-    return ([{"max_n": 6, "examples": 300, "steps": 60, "cost": 6} for _ in range(10)]
-            + [{"max_n": 8, "examples": 40, "steps": 40, "cost": 10} for _ in range(6)])
+    return ([{"max_n": 6, "examples": 700, "steps": 60, "cost": 6} for _ in range(10)]
+            + [{"max_n": 8, "examples": 80, "steps": 40, "cost": 10} for _ in range(6)])
 
 
 def run_shard(spec: dict, ctx: Ctx) -> None:
